@@ -23,7 +23,7 @@ pub fn property() -> Property {
             "kernel loopback delivers UDP datagrams up to 65507 bytes in lock-step without loss",
             "reference UDP-over-TCP framing (sing-box v2 connect format) in this module",
         ],
-        families: vec![(Box::new(TunnelFam), 150, 1_500), (Box::new(RelayFam), 1_500, 10_000)],
+        families: vec![(Box::new(TunnelFam), 150, 1_500), (Box::new(RelayFam), 1_500, 10_000), (Box::new(ClientRelayFam), 24, 300)],
     }
 }
 
@@ -310,6 +310,89 @@ impl Family for RelayFam {
         out.class_if(cut_in_prefix, "cut-inside-length-prefix");
         out.class_if(multi, "several-packets-in-one-chunk");
         out.class_if(!case.replies.is_empty(), "replies");
+        Ok(out)
+    }
+}
+
+// ------------------------------------------------------------------------------------------
+// family `client_relay` (Lab-S): the real Client's UDP association against the reference server,
+// which echoes every packet back with its framing cut into several data frames and pauses between
+// them (a foreign server may fragment and stall the tunnel's byte stream in any way)
+
+use crate::lab_sock::refpeer::{Behaviour, RefServer};
+use crate::lab_sock::{PASSWORD, run_real};
+
+#[derive(Clone, Debug, Serialize, Deserialize)]
+pub struct ClientRelayCase {
+    pub sizes: Vec<usize>,
+    pub cuts: Vec<u16>,
+    pub pause_ms: u64,
+}
+
+pub struct ClientRelayFam;
+
+impl Family for ClientRelayFam {
+    type Case = ClientRelayCase;
+    fn name(&self) -> &'static str {
+        "client_relay"
+    }
+    fn strategy(&self, _tier: Tier) -> BoxedStrategy<ClientRelayCase> {
+        let small = weighted_sizes(vec![(4, 1..=40), (2, 254..=258), (1, 1000..=1500), (1, 8190..=8194), (1, 65506..=65507)]);
+        (proptest::collection::vec(small, 1..4), proptest::collection::vec(prop_oneof![Just(1u16), Just(700), any::<u16>()], 1..4), prop_oneof![3 => Just(0u64), 2 => Just(40), 2 => Just(1300), 1 => Just(2600)])
+            .prop_map(|(sizes, cuts, pause_ms)| ClientRelayCase { sizes, cuts, pause_ms })
+            .boxed()
+    }
+    fn case_budget_s(&self) -> u64 {
+        120
+    }
+    fn run(&self, case: &ClientRelayCase, _cx: &CaseCtx) -> CaseResult {
+        let mut out = Outcome::new();
+        let c = case.clone();
+        let r: Result<(), Fail> = run_real(async move {
+            let case = c;
+            let beh = Behaviour { synack: true, echo: false, heartbeat: true, server_settings: true, scheme: None, schemes: vec![], heartbeat_limit: None, uot_echo: Some((case.cuts.clone(), case.pause_ms)) };
+            let srv = RefServer::start(PASSWORD, beh).await?;
+            let cfg = anytls_rs::util::tls::create_client_config().map_err(|e| infra(e.to_string()))?;
+            let connector = Arc::new(tokio_rustls::TlsConnector::from(cfg));
+            let name = tokio_rustls::rustls::pki_types::ServerName::IpAddress(srv.addr.ip().into());
+            let client = anytls_rs::client::Client::new(PASSWORD, srv.addr.to_string(), name, connector, crate::lab_mem::default_padding());
+            let local = format!("{}:0", worker_ip());
+            let target: SocketAddr = "127.0.0.1:9".parse().unwrap(); // never dialled: the reference server echoes
+            let assoc = match tokio::time::timeout(Duration::from_secs(40), client.create_udp_proxy(&local, target)).await {
+                Ok(Ok(a)) => a,
+                other => return Err(infra(format!("create_udp_proxy against the reference server: {:?}", other.map(|r| r.map_err(|e| e.to_string()))))),
+            };
+            let app = UdpSocket::bind(SocketAddr::new(IpAddr::V4(worker_ip()), 0)).await.map_err(|e| infra(format!("app udp bind: {e}")))?;
+            for (k, size) in case.sizes.iter().enumerate() {
+                let payload = keyed(k as u32, 11, 0, *size);
+                app.send_to(&payload, assoc).await.map_err(|e| infra(format!("app send: {e}")))?;
+                let budget = 10_000 + 4 * case.pause_ms;
+                match recv_dgram(&app, budget).await {
+                    Some((d, _)) => {
+                        ensure!(
+                            d == payload,
+                            "C15.one",
+                            "datagram #{k} ({size} bytes) echoed by the reference server in fragments (cuts {:?}, {} ms between frames) came back as {} bytes / altered",
+                            case.cuts,
+                            case.pause_ms,
+                            d.len()
+                        );
+                    }
+                    None => {
+                        return Err(Fail::plain(
+                            "C15.one",
+                            format!("datagram #{k} ({size} bytes) echoed by the reference server in fragments (cuts {:?}, {} ms between frames) never reached the application", case.cuts, case.pause_ms),
+                        ));
+                    }
+                }
+                ensure!(recv_dgram(&app, 30).await.is_none(), "C15.none", "an extra datagram reached the application");
+            }
+            Ok(())
+        });
+        r?;
+        out.nt(true);
+        out.class_if(case.pause_ms >= 1000, "stall>=1s-between-frames");
+        out.class_if(case.cuts.contains(&1), "cut-inside-length-prefix");
         Ok(out)
     }
 }
